@@ -22,12 +22,22 @@
   What is assumed, not proved: the search result handed to the completion is the truth at job
   start for the streams it was asked about (C02–C04), and the frame hypotheses themselves
   (`features_cover_dependencies`: tied per definition by the scenario harness' own evaluator).
+
+  ADDED (proof phase): `inheritTagUncertainty` / `invalidateTags` do not only add pending ids, they
+  also *replace* a pending set by `{0..all-1}`.  "Pending never shrinks" therefore needs that
+  pending ids are existing stream ids (`UncBounded`, resp. the per-tag / per-argument bounds
+  `hb`, `hadd`, `hrst`, `hupd`) and `inv_step_stable` needs `nextStreamID ≤ |allStreams|` (`hna`).
+  Each added hypothesis is marked `-- ADDED` with the counterexample to the unguarded statement.
 -/
 import Pk.Model.Manager
 import Pk.Proofs.MgrTags
+import Pk.Proofs.MgrTagsInherit
+import Pk.Proofs.MgrTagsFrame
+import Pk.Proofs.MgrTagsStep
 
 namespace Pk.Props.C06
 open Pk.Mgr
+open Pk.Proofs
 
 /-- "decided ⇒ correct" for all tags -/
 def Inv (s : St) (T : String → Nat → Bool) : Prop :=
@@ -48,52 +58,150 @@ def Edits (e : Ev) (n : String) : Prop :=
 /-- tag names are unique keys of the table (kept by `sins`) -/
 def TagsWF (s : St) : Prop := (s.tags.map (·.1)).Pairwise (· < ·)
 
-theorem tagsWF_step (s : St) (e : Ev) (st : Started) (h : TagsWF s) : TagsWF (step s e st).1 := by
-  sorry
+-- ADDED: pending sets only mention stream ids below `allStreams`.  `inheritTagUncertainty` and
+-- `invalidateTags` *replace* a pending set by `{0..all-1}`; without this bound that replacement
+-- can drop a pending id ≥ `all` (counterexamples in the comments of the theorems below).
+/-- every pending stream id of every tag is an existing stream id -/
+def UncBounded (s : St) : Prop := ∀ n t, sget s.tags n = some t → ∀ id, id ∈ t.unc → id < s.all
+
+private theorem edits_iff (e : Ev) (n : String) : Edits e n ↔ MgrTags.EditsN e n := by
+  cases e <;> exact Iff.rfl
+
+/-- what every event does to the tag table (see `MgrTags.step_frame`) -/
+private theorem step_frame (s : St) (e : Ev) (st : Started) :
+    (TagsWF s → TagsWF (step s e st).1) ∧
+    (∀ n, ¬ Edits e n → MgrTags.Keep (step s e st).1.all n s.tags (step s e st).1.tags) ∧
+    ((∀ p u c a b d, e ≠ .importDone p u c a b d) → (step s e st).1.all = s.all ∧ (step s e st).1.next = s.next) :=
+  ⟨(MgrTags.step_frame s e st).1,
+   fun n hn => (MgrTags.step_frame s e st).2.1 n (fun h => hn ((edits_iff e n).mpr h)),
+   (MgrTags.step_frame s e st).2.2⟩
+
+theorem tagsWF_step (s : St) (e : Ev) (st : Started) (h : TagsWF s) : TagsWF (step s e st).1 :=
+  (step_frame s e st).1 h
 
 /-- an event that does not edit or publish `n` keeps `n`'s definition and answers; pending
     streams stay pending -/
 theorem unc_grows_mat_fixed (s : St) (e : Ev) (st : Started) (n : String) (t : Tag)
-    (hw : TagsWF s) (ht : sget s.tags n = some t) (hne : ¬ Edits e n) :
+    (hw : TagsWF s) (ht : sget s.tags n = some t) (hne : ¬ Edits e n)
+    -- ADDED: the tag's pending ids are stream ids that exist after the event.  Without it the
+    -- statement is false: tags a (unc=[5]) and b (subT=[a], unc=[7]), all=0, jConv=some([],[]),
+    -- event convertDone: `inherit` replaces b.unc by rangeSet 0 = [], so 7 is no longer pending.
+    (hb : ∀ id, id ∈ t.unc → id < (step s e st).1.all) :
     ∃ t', sget (step s e st).1.tags n = some t' ∧ t'.mat = t.mat ∧ t'.defn = t.defn ∧
           ∀ id, id ∈ t.unc → id ∈ t'.unc := by
-  sorry
+  have _ := hw
+  obtain ⟨t', h', hr⟩ := ((step_frame s e st).2.1 n hne).1 t ht
+  exact ⟨t', h', hr.1, hr.2.1, fun id hid => hr.2.2 id hid (hb id hid)⟩
 
 /-- preservation of "decided ⇒ correct" by every event that only invalidates: the frame
     hypothesis says that every stream that is new or whose truth changed is pending afterwards -/
 theorem inv_step_stable (s : St) (e : Ev) (st : Started) (T T' : String → Nat → Bool)
     (hw : TagsWF s) (hinv : Inv s T)
     (hstable : ∀ n, ¬ Edits e n)
+    -- ADDED: stream ids in use are existing streams (`nextStreamID ≤ |allStreams|`).  Without it
+    -- the statement is false: next=10, all=0, tags a (unc=[5]) and b (subT=[a], unc=[7], mat=[7]),
+    -- T b 7 = false, T' = T, jConv=some([],[]), event convertDone: `inherit` sets b.unc := rangeSet 0,
+    -- so 7 < next becomes decided with the wrong answer although nothing changed.
+    (hna : s.next ≤ s.all)
     (hframe : ∀ n t', sget (step s e st).1.tags n = some t' → ∀ id, id < (step s e st).1.next →
                 (s.next ≤ id ∨ T' n id ≠ T n id) → id ∈ t'.unc) :
     Inv (step s e st).1 T' := by
-  sorry
+  have _ := hw
+  intro n t' h' id hid hnu
+  have hk := (step_frame s e st).2.1 n (hstable n)
+  have hold : id < s.next := by
+    rcases Nat.lt_or_ge id s.next with h | h
+    · exact h
+    · exact absurd (hframe n t' h' id hid (Or.inl h)) hnu
+  have hT : T' n id = T n id := by
+    rcases Decidable.em (T' n id = T n id) with h | h
+    · exact h
+    · exact absurd (hframe n t' h' id hid (Or.inr h)) hnu
+  -- the bound under which pending ids are kept covers `id`
+  have hbound : id < (step s e st).1.all ∨ (step s e st).1.tags = s.tags := by
+    by_cases himp : ∃ p u c a b d, e = .importDone p u c a b d
+    · obtain ⟨p, u, c, a, b, d, rfl⟩ := himp
+      cases hj : s.jImport with
+      | none => right; rw [MgrTags.step_importDone_none _ _ _ _ _ _ _ _ hj]
+      | some q =>
+        obtain ⟨jnext, held⟩ := q
+        obtain ⟨s2, hs, h0, h1⟩ := MgrTags.step_importDone_some s p u c a b d st jnext held hj
+        by_cases hc : c = []
+        · right; rw [hs.1]; exact (h0 hc).1
+        · left
+          obtain ⟨s1, _, e2, e3, hf⟩ := h1 hc
+          rw [hs.2.2, hf.next, e3] at hid
+          rw [hs.2.1, hf.all, e2]; exact hid
+    · left
+      rw [((step_frame s e st).2.2 (fun p u c a b d h => himp ⟨p, u, c, a, b, d, h⟩)).1]; omega
+  cases hsn : sget s.tags n with
+  | none => rw [hk.2 hsn] at h'; cases h'
+  | some t =>
+    have hmat : t'.mat = t.mat ∧ (id ∈ t.unc → id ∈ t'.unc) := by
+      rcases hbound with hb | hb
+      · obtain ⟨t2, h2, hr⟩ := hk.1 t hsn
+        rw [h2] at h'; cases h'
+        exact ⟨hr.1, fun h => hr.2.2 id h hb⟩
+      · rw [hb, hsn] at h'; cases h'; exact ⟨rfl, fun h => h⟩
+    rw [hmat.1, hT]
+    exact hinv n t hsn id hold (fun h => hnu (hmat.2 h))
 
 /-- what `invalidateTags` makes pending, by dependency class of the definition (before the
     propagation through references) -/
 theorem invalidate_covers (s : St) (upd rst add : IdSet) (n : String) (t : Tag)
-    (hw : TagsWF s) (ht : sget s.tags n = some t) :
+    (hw : TagsWF s) (ht : sget s.tags n = some t)
+    -- ADDED: all ids involved are existing stream ids.  Without these the statement is false:
+    -- one tag d with sfeat=1, unc=[3], all=2: `invalidateTags s [] [] [9]` sets d.unc := [0,1],
+    -- losing the pending id 3 (needs hb) and not containing the added id 9 (needs hadd); the same
+    -- replacement by `rangeSet all` happens in `inherit` for a tag with a pending sub-query
+    -- reference, which is why `rst` and `upd` need the bound as well.
+    (hb : ∀ id, id ∈ t.unc → id < s.all) (hadd : ∀ id, id ∈ add → id < s.all)
+    (hrst : ∀ id, id ∈ rst → id < s.all) (hupd : ∀ id, id ∈ upd → id < s.all) :
     ∃ t', sget (invalidateTags s upd rst add).tags n = some t' ∧ t'.mat = t.mat ∧
       (∀ id, id ∈ t.unc → id ∈ t'.unc) ∧
       (∀ id, id ∈ add → id ∈ t'.unc) ∧
       (t.sfeat ≠ 0 → ∀ id, id < s.all → id ∈ t'.unc) ∧
       (t.mfeat &&& (255 - fID) ≠ 0 → ∀ id, id ∈ rst → id ∈ t'.unc) ∧
       (t.mfeat &&& (fData ||| fTimeAbs ||| fTimeRel) ≠ 0 → ∀ id, id ∈ upd → id ∈ t'.unc) := by
-  sorry
+  have _ := hw
+  rw [MgrTags.invalidateTags_eq]
+  have hk := MgrTags.inherit_keep
+    { s with tags := s.tags.map fun p => (p.1, MgrTags.invF s.all upd rst add p.2) } n
+  obtain ⟨t', h', hr⟩ := hk.1 (MgrTags.invF s.all upd rst add t)
+    (by simp only [MgrTags.sget_map (fun _ t => MgrTags.invF s.all upd rst add t), ht, Option.map_some])
+  have h0 := MgrTags.trel_invF s.all upd rst add t
+  refine ⟨t', h', hr.1.trans h0.1, ?_, ?_, ?_, ?_, ?_⟩
+  · exact fun id h => hr.2.2 id (h0.2.2 id h (hb id h)) (hb id h)
+  · exact fun id h => hr.2.2 id (MgrTags.invF_add t id h (hadd id h)) (hadd id h)
+  · exact fun hs id h => hr.2.2 id (MgrTags.invF_sub t hs id h) h
+  · exact fun hm id h => hr.2.2 id (MgrTags.invF_rst t hm id h (hrst id h)) (hrst id h)
+  · exact fun hm id h => hr.2.2 id (MgrTags.invF_upd t hm id h (hupd id h)) (hupd id h)
 
 /-- propagation never removes a pending stream and never touches answers -/
-theorem inherit_grows (s : St) (n : String) (t : Tag) (hw : TagsWF s) (ht : sget s.tags n = some t) :
+theorem inherit_grows (s : St) (n : String) (t : Tag) (hw : TagsWF s) (ht : sget s.tags n = some t)
+    -- ADDED: the tag's pending ids are existing stream ids.  Without it the statement is false:
+    -- tags a (unc=[5]) and b (subT=[a], unc=[7]), all=0: `inherit` sets b.unc := rangeSet 0 = [].
+    (hb : ∀ id, id ∈ t.unc → id < s.all) :
     ∃ t', sget (inherit s).tags n = some t' ∧ t'.mat = t.mat ∧ t'.defn = t.defn ∧
           ∀ id, id ∈ t.unc → id ∈ t'.unc := by
-  sorry
+  have _ := hw
+  obtain ⟨t', h', hr⟩ := (MgrTags.inherit_keep s n).1 t ht
+  exact ⟨t', h', hr.1, hr.2.1, fun id h => hr.2.2 id h (hb id h)⟩
 
 /-- after propagation a tag is pending wherever a tag it references through its main query is,
     and everywhere if a tag it references through a sub-query has pending streams -/
-theorem inherit_closed (s : St) (hw : TagsWF s) (hok : (inherit s).diverged = false)
+theorem inherit_closed (s : St) (hw : TagsWF s)
+    -- ADDED: pending ids are existing stream ids.  Without it the statement is false: tags a
+    -- (unc=[5]), c (unc=[1]), b (mainT=[a], subT=[c]), all=0: `inherit` sets b.unc := rangeSet 0 = []
+    -- while the main-query reference a still has 5 pending; `diverged` stays false.
+    (hb : UncBounded s)
+    (hok : (inherit s).diverged = false)
     (n : String) (t' : Tag) (ht : sget (inherit s).tags n = some t') :
     (∀ r ∈ t'.mainT, ∀ id, id ∈ tagUnc (inherit s).tags r → id ∈ t'.unc) ∧
     ((∃ r ∈ t'.subT, tagUnc (inherit s).tags r ≠ []) → ∀ id, id < s.all → id ∈ t'.unc) := by
-  sorry
+  rw [MgrTags.inherit_diverged] at hok
+  simp only [Bool.or_eq_false_iff, Bool.not_eq_false'] at hok
+  exact MgrTags.inherit_closed_aux s hw hb hok.2 n t' ht
 
 /-- publishing a tagging-job result: correct for every stream that is decided afterwards -/
 theorem tagjob_publish_sound (s : St) (st : Started) (name : String) (snap ot : Tag) (held result : List Nat)
@@ -109,19 +217,30 @@ theorem tagjob_publish_sound (s : St) (st : Started) (name : String) (snap ot : 
               ∀ id, id < s.next → T id ≠ T0 id → id ∈ t'.unc) :
     ∀ t', sget (step s (.tagDone name result) st).1.tags name = some t' →
       ∀ id, id < s.next → id ∉ t'.unc → (id ∈ t'.mat ↔ T id = true) := by
-  sorry
+  have _ := hw
+  intro t' h' id hid hnu
+  have hT : T id = T0 id := by
+    rcases Decidable.em (T id = T0 id) with h | h
+    · exact h
+    · exact absurd (hcov t' h' id hid h) hnu
+  rw [MgrTags.step_tagDone_mat s st name snap ot held result hj ht hd t' h', hT]
+  simp only [MgrTags.mem_union, MgrTags.mem_diff, MgrTags.mem_ofList, hres]
+  by_cases hu : id ∈ snap.unc
+  · simp [hu]
+  · simp [hu, hsnap id hid hu]
 
 /-- a mark update changes exactly the given streams -/
 theorem mark_update_exact (s : St) (name : String) (t : Tag) (addIds delIds : List Nat)
     (hw : TagsWF s) (ht : sget s.tags name = some t) :
     ∃ t', sget (markUpdate s name addIds delIds).1.tags name = some t' ∧
       ∀ id, id ∈ t'.mat ↔ ((id ∈ t.mat ∨ id ∈ addIds) ∧ id ∉ delIds) := by
-  sorry
+  have _ := hw
+  exact MgrTags.markUpdate_mat s name t addIds delIds ht
 
 /-! ### set operations behave like sets (used throughout) -/
-theorem mem_union (a b : IdSet) (x : Nat) : x ∈ union a b ↔ x ∈ a ∨ x ∈ b := by sorry
-theorem mem_diff (a b : IdSet) (x : Nat) : x ∈ diff a b ↔ x ∈ a ∧ x ∉ b := by sorry
-theorem mem_inter (a b : IdSet) (x : Nat) : x ∈ inter a b ↔ x ∈ a ∧ x ∈ b := by sorry
-theorem mem_rangeSet (n x : Nat) : x ∈ rangeSet n ↔ x < n := by sorry
+theorem mem_union (a b : IdSet) (x : Nat) : x ∈ union a b ↔ x ∈ a ∨ x ∈ b := MgrTags.mem_union a b x
+theorem mem_diff (a b : IdSet) (x : Nat) : x ∈ diff a b ↔ x ∈ a ∧ x ∉ b := MgrTags.mem_diff a b x
+theorem mem_inter (a b : IdSet) (x : Nat) : x ∈ inter a b ↔ x ∈ a ∧ x ∈ b := MgrTags.mem_inter a b x
+theorem mem_rangeSet (n x : Nat) : x ∈ rangeSet n ↔ x < n := MgrTags.mem_rangeSet n x
 
 end Pk.Props.C06
